@@ -1,4 +1,4 @@
-(* Generic saturation (least fixed point by one-at-a-time chaotic iteration) inside a finite universe.
+(* Generic saturation (least fixed point by rounds: each round adds every admissible candidate) inside a finite universe.
    [ok S c] says that candidate [c] may be added given the current set [S]; it must be monotone in S.
    Used for generating / nullable symbols, charts, FIRST / FOLLOW, markings. *)
 From Coq Require Import List Bool Arith Lia.
@@ -11,10 +11,11 @@ Section Sat.
   Variable ok : list A -> A -> bool.
   Hypothesis ok_mono : forall S S' c, incl S S' -> ok S c = true -> ok S' c = true.
 
+  (* one round adds every candidate that is currently admissible *)
   Definition sat_step (S : list A) : list A + list A :=
-    match find (fun c => negb (mem c S) && ok S c) cands with
-    | Some c => inl (c :: S)
-    | None => inr S
+    match filter (fun c => negb (mem c S) &&& ok S c) cands with
+    | [] => inr S
+    | new => inl (new ++ S)
     end.
 
   Definition saturate_fuel (n : nat) : option (list A) :=
@@ -30,11 +31,13 @@ Section Sat.
     | inr R => (forall x, In x R -> Gen x) /\ (forall c, In c cands -> ok R c = true -> In c R)
     end.
   Proof.
-    intros I. unfold sat_step. destruct (find _ cands) as [c|] eqn:F.
-    - apply find_some in F. destruct F as [Hc F]. apply andb_true_iff in F. destruct F as [_ F].
-      intros x [<-|Hx]; [|now apply I]. now apply gen_intro with S.
-    - split; [exact I|]. intros c Hc Ho. pose proof (find_none _ _ F c Hc) as N. cbv beta in N.
-      rewrite Ho, andb_true_r in N. apply negb_false_iff in N. now apply mem_In.
+    intros I. unfold sat_step. destruct (filter _ cands) as [|c0 new] eqn:F.
+    - split; [exact I|]. intros c Hc Ho. destruct (mem c S) eqn:M; [now apply mem_In|]. exfalso.
+      assert (X : In c (filter (fun c => negb (mem c S) &&& ok S c) cands)) by (apply filter_In; rewrite M, Ho; auto).
+      rewrite F in X. destruct X.
+    - intros x Hx. apply in_app_iff in Hx. destruct Hx as [Hx|Hx]; [|now apply I].
+      rewrite <- F in Hx. apply filter_In in Hx. destruct Hx as [Hc E]. apply land_true_iff in E. destruct E as [_ E].
+      now apply gen_intro with S.
   Qed.
 
   Lemma saturate_fuel_spec n R : saturate_fuel n = Some R ->
@@ -47,14 +50,32 @@ Section Sat.
     destruct (loop sat_step n []) as [|r]; [discriminate|]. inversion E; subst. exact L.
   Qed.
 
+  Lemma unseen_app_le (l S : list A) : unseen cands (l ++ S) <= unseen cands S.
+  Proof.
+    induction l as [|x l IH]; cbn [app]; [lia|]. pose proof (unseen_add_le cands (l ++ S) x). lia.
+  Qed.
+  Lemma unseen_app_lt (l S : list A) c : In c l -> In c cands -> mem c S = false ->
+    unseen cands (l ++ S) < unseen cands S.
+  Proof.
+    induction l as [|x l IH]; intros Hl Hc M; [destruct Hl|]. cbn [app].
+    destruct (mem c l) eqn:Ml.
+    - apply mem_In in Ml. pose proof (IH Ml Hc M). pose proof (unseen_add_le cands (l ++ S) x). lia.
+    - destruct Hl as [->|Hl]; [|apply mem_In in Hl; congruence].
+      assert (M2 : mem c (l ++ S) = false).
+      { apply mem_nIn. intros X. apply in_app_iff in X. destruct X as [X|X]; apply mem_In in X; congruence. }
+      pose proof (unseen_add_lt cands (l ++ S) c Hc M2). pose proof (unseen_app_le l S). lia.
+  Qed.
+
   Lemma sat_step_progress S : incl S cands ->
     match sat_step S with inl S' => incl S' cands /\ unseen cands S' < unseen cands S | inr _ => True end.
   Proof.
-    intros I. unfold sat_step. destruct (find _ cands) as [c|] eqn:F; [|exact Logic.I].
-    apply find_some in F. destruct F as [Hc F]. apply andb_true_iff in F. destruct F as [F _].
-    apply negb_true_iff in F. split.
-    - intros x [<-|Hx]; auto.
-    - now apply unseen_add_lt.
+    intros I. unfold sat_step. destruct (filter _ cands) as [|c0 new] eqn:F; [exact Logic.I|].
+    assert (X : In c0 (filter (fun c => negb (mem c S) &&& ok S c) cands)) by (rewrite F; now left).
+    apply filter_In in X. destruct X as [Hc E]. apply land_true_iff in E. destruct E as [E _]. apply negb_true_iff in E.
+    split.
+    - intros x Hx. apply in_app_iff in Hx. destruct Hx as [Hx|Hx]; [|now apply I].
+      rewrite <- F in Hx. apply filter_In in Hx. tauto.
+    - apply unseen_app_lt with c0; [now left|exact Hc|exact E].
   Qed.
 
   Lemma saturate_terminates : exists R, saturate_fuel (length cands + 1) = Some R.
